@@ -196,3 +196,26 @@ def lattice_points(h):
             conj.append('pts[%d][%d] == lo[%d] + (%d + 0.5) * %s' % (k, d, d, j, w))
             conj.append('lo[%d] <= pts[%d][%d] and pts[%d][%d] <= up[%d]' % (d, k, d, k, d, d))
     h.check('each-member-starts-at-the-centre-of-its-own-cell-inside-the-ranges', ' and '.join(conj), pts=pts, lo=lo, up=up)
+
+
+@contract('C07/ensemble.best-member-independent-of-history', ['C07', 'C09'], ENS + '.__update_bestSolver', native=False)
+def best_independent_of_history(h):
+    """the member reported as best is a function of the members alone: whatever member was the best before this update
+    (i.e. whatever the history of the run: step-wise or run-to-completion), the same member comes out -- also when several
+    members tie exactly.  Relational: the real method is executed twice on the same members with different previous bests."""
+    if not h.is_sym():
+        h.unsupported('symbolic only')
+    k = h.choice('members', [2, 3])
+    members = [_member(h, i) for i in range(k)]
+    prev_a = h.choice('previous_best_in_run_A', [None] + list(range(k)))
+    prev_b = h.choice('previous_best_in_run_B', [None] + list(range(k)))
+    if prev_a == prev_b:
+        return
+    outs = []
+    for prev in (prev_a, prev_b):
+        s = h.obj(ENS, _allSolvers=h.clist(list(members)), _bestSolver=None if prev is None else members[prev], _bestEnergy=None,
+                  _bestSolution=None, population=h.clist([h.vec('ens_pop', 2)]), popEnergy=h.clist([h.real('ens_pe', inf=True)]),
+                  _stepmon=None, _evalmon=None, _energy_history=None, _solution_history=None, id=None)
+        h.call(h.getattr(s, '_AbstractEnsembleSolver__update_bestSolver'))
+        outs.append(h.field(s, '_bestSolver'))
+    h.check('same-best-member-whatever-the-previous-best', 'same(a, b)', a=outs[0], b=outs[1])
